@@ -439,3 +439,65 @@ M('c03-placeholder-shape', 'C03', 'TT-BUF', 'dgda placeholder sized (A, G)',
   (LE, "                    (self.g_factor.shape[0], self.a_factor.shape[0]),", "                    (self.a_factor.shape[0], self.g_factor.shape[0]),"))
 M('c03-sym-mismatch', 'C03', None, 'G inverse broadcast dense on... symmetric only in one layer method',
   (LI, "        self.g_inv = self.tdc.broadcast(  # type: ignore\n            self.g_inv,\n            src=src,\n            group=group,\n            symmetric=self.symmetric_factors and self.symmetry_aware,\n        )", "        self.g_inv = self.tdc.broadcast(  # type: ignore\n            self.g_inv,\n            src=src,\n            group=group,\n            symmetric=get_rank() == src and self.symmetry_aware,\n        )"))
+
+# ---------------------------------------------------------------- C04
+M('c04-swapped-alpha', 'C04', 'AFF-EMA', 'alpha and 1-alpha swapped',
+  (LB, "        self.a_factor = (alpha * self.a_factor) + ((1 - alpha) * a_new)", "        self.a_factor = ((1 - alpha) * self.a_factor) + (alpha * a_new)"))
+M('c04-zero-init', 'C04', 'AFF-ID', 'first factor initialised to zeros',
+  (LB, "            self.g_factor = torch.diag(g_new.new(g_new.shape[0]).fill_(1))", "            self.g_factor = torch.diag(g_new.new(g_new.shape[0]).fill_(0))"))
+M('c04-no-count-division', 'C04', 'AFF-ACC', 'accumulated sum not divided by the count',
+  (LB, "        if self._a_count > 1:\n            self._a_batch = (1 / self._a_count) * self._a_batch\n", ""))
+M('c04-count-ge-1', 'C04', 'AFF-ACC', 'G count test off by one (>= 1 harmless?) -> > 2',
+  (LB, "        if self._g_count > 1:", "        if self._g_count > 2:"))
+M('c04-stale-count', 'C04', 'AFF-ACC', 'count always incremented; reset keeps the count (seed C04-2)',
+  (LB, "        if self._a_batch is None:\n            self._a_batch = a\n            self._a_count = 1\n        else:", "        if self._a_batch is None:\n            self._a_batch = a\n            self._a_count += 1\n        else:"))
+M('c04-reset-keeps-count', 'C04', 'AFF-ACC', 'reset_batch keeps the G count',
+  (LB, "        self._g_batch = None\n        self._g_count = 0", "        self._g_batch = None"))
+M('c04-batch-not-cleared', 'C04', 'AFF-ACC', 'batch buffer kept after the update',
+  (LB, "        g_new = self._g_batch\n        self._g_batch = None\n", "        g_new = self._g_batch\n"))
+M('c04-outer-product', 'C04', None, 'a @ a.t() instead of a.t() @ a',
+  (LU, "        cov_a = a.t() @ (a / scale)", "        cov_a = a @ (a.t() / scale)"))
+M('c04-no-row-norm', 'C04', 'TT-COV', 'second moment not divided by the number of rows',
+  (LU, "        cov_a = a.t() @ (a / scale)", "        cov_a = a.t() @ a"))
+M('c04-asym-weights', 'C04', 'TT-COV', 'symmetrisation weights do not sum to one',
+  (LU, "        return (cov_a + cov_a.t()) / 2.0", "        return cov_a + cov_a.t()"))
+M('c04-bias-zeros', 'C04', 'TT-BIAS1', 'bias column of zeros',
+  (LU, "    return torch.cat([tensor, tensor.new_ones(shape)], dim=-1)", "    return torch.cat([tensor, tensor.new_zeros(shape)], dim=-1)"))
+M('c04-bias-first', 'C04', None, 'bias column prepended',
+  (LU, "    return torch.cat([tensor, tensor.new_ones(shape)], dim=-1)", "    return torch.cat([tensor.new_ones(shape), tensor], dim=-1)"))
+M('c04-conv-wrong-spatial', 'C04', 'TT-CONV', 'spatial size from the batch and row axes',
+  (LM, "        spatial_size = a.size(1) * a.size(2)", "        spatial_size = a.size(0) * a.size(1)"))
+M('c04-conv-g-spatial', 'C04', 'TT-CONV', 'G spatial size from channel axes',
+  (LM, "        spatial_size = g.size(2) * g.size(3)", "        spatial_size = g.size(1) * g.size(2)"))
+M('c04-scaler-multiplied', 'C04', 'AFF-SCALER', 'output gradient multiplied by the loss scale',
+  (LB, "            g = g / self.grad_scaler()", "            g = g * self.grad_scaler()"))
+M('c04-no-factor-dtype', 'C04', 'TT-FDTYPE', 'input not cast to the factor dtype',
+  (LB, "        a = input_[0].to(self.factor_dtype).clone()", "        a = input_[0].clone()"))
+M('c04-eval-updates', 'C04', 'DOM-FGATE', 'forward hook ignores the factor interval',
+  (BP, "        if not module.training:\n            return\n        if self.steps % self.factor_update_steps == 0:\n            name, layer = self._layers[module]\n            layer.save_layer_input(input_)", "        if not module.training:\n            return\n        if True:\n            name, layer = self._layers[module]\n            layer.save_layer_input(input_)"))
+T('c04-twin-ema-incremental', 'C04', 'old + (1-alpha)*(new-old)',
+  (LB, "        self.a_factor = (alpha * self.a_factor) + ((1 - alpha) * a_new)", "        self.a_factor = self.a_factor + (1 - alpha) * (a_new - self.a_factor)"))
+T('c04-twin-divide', 'C04', 'batch / count',
+  (LB, "            self._a_batch = (1 / self._a_count) * self._a_batch", "            self._a_batch = self._a_batch / self._a_count"))
+
+# ---------------------------------------------------------------- C15
+M('c15-pad-swapped', 'C15', 'TT-GEOM', 'height/width padding swapped (seed C15-1)',
+  (LM, "                (padding[1], padding[1], padding[0], padding[0]),", "                (padding[0], padding[0], padding[1], padding[1]),"))
+M('c15-stride-swapped', 'C15', 'TT-GEOM', 'W unfolded with the H stride',
+  (LM, "        x = x.unfold(3, kernel_size[1], stride[1])", "        x = x.unfold(3, kernel_size[1], stride[0])"))
+M('c15-kernel-order', 'C15', None, 'kernel dims moved in front of the channels',
+  (LM, "        x = x.transpose_(1, 2).transpose_(2, 3).contiguous()\n        x = x.view(\n            x.size(0),\n            x.size(1),\n            x.size(2),\n            x.size(3) * x.size(4) * x.size(5),\n        )", "        x = x.permute(0, 2, 3, 4, 5, 1).contiguous()\n        x = x.view(\n            x.size(0),\n            x.size(1),\n            x.size(2),\n            x.size(3) * x.size(4) * x.size(5),\n        )"))
+M('c15-bias-first-grad', 'C15', 'TT-BIASLAST', 'bias column first in the combined gradient',
+  (LM, "            g = torch.cat(\n                [g, self.module.bias.grad.view(-1, 1)],  # type: ignore\n                1,\n            )", "            g = torch.cat(\n                [self.module.bias.grad.view(-1, 1), g],  # type: ignore\n                1,\n            )"))
+M('c15-shape-no-bias', 'C15', 'TT-SHAPEFN', 'advertised A shape ignores the bias',
+  (LM, "        x = self.module.weight.size(1) + int(self.has_bias())  # type: ignore", "        x = self.module.weight.size(1)  # type: ignore"))
+M('c15-g-shape-in', 'C15', 'TT-SHAPEFN', 'advertised conv G shape uses in_channels',
+  (LM, "        out_ch: int = self.module.out_channels  # type: ignore", "        out_ch: int = self.module.in_channels  # type: ignore"))
+M('c15-setgrad-swapped', 'C15', 'TT-ROUNDTRIP', 'bias gradient taken from the first column',
+  (LM, "            bias_grad = grad[:, -1:].view(self.get_bias_grad().size())", "            bias_grad = grad[:, :1].view(self.get_bias_grad().size())"))
+M('c15-conv-grad-transposed', 'C15', None, 'conv weight gradient flattened after a transpose',
+  (LM, "            self.module.weight.grad.view(  # type: ignore\n                self.module.weight.grad.size(0),  # type: ignore\n                -1,\n            ),", "            self.module.weight.grad.transpose(1, 3).reshape(  # type: ignore\n                self.module.weight.grad.size(0),  # type: ignore\n                -1,\n            ),"))
+T('c15-twin-reshape', 'C15', 'reshape instead of view in the linear A factor',
+  (LM, "        a = a.view(-1, a.size(-1))\n        if self.has_bias():\n            a = append_bias_ones(a)\n        return get_cov(a)", "        a = a.reshape(-1, a.size(-1))\n        if self.has_bias():\n            a = append_bias_ones(a)\n        return get_cov(a)"))
+T('c15-twin-permute', 'C15', 'permute instead of two transposes',
+  (LM, "        x = x.transpose_(1, 2).transpose_(2, 3).contiguous()", "        x = x.permute(0, 2, 3, 1, 4, 5).contiguous()"))
